@@ -26,7 +26,7 @@ import prop_C05
 
 ID = "C08"
 COQ_PROP = "C08"
-FAMILIES = [(fam_defaults, 800, 20000), (fam_docemit, 500, 8000), (fam_docparse, 600, 10000)]
+FAMILIES = [(fam_defaults, 2000, 40000), (fam_docemit, 800, 10000), (fam_docparse, 1000, 15000)]
 TECHNIQUE = ("Coq proof of the local idempotence lemmas (quote, unquote, set_default_doc, to_docstring text a function of the "
              "interface fields, the options and indent_level only) and of the fixed-point theorem from round-trip laws (second and "
              "third emission equal by rewriting), instantiated for the ReST docstring kind from the C01 ReST theorem; the "
